@@ -139,7 +139,9 @@ fn c03_paid_put() {
     let sigs_authentic = choice(2) == 0;
     let self_is_payee = choice(2) == 0;
     let payees_close = choice(2) == 0;
-    let contract_ok = choice(2) == 0;
+    // the chain's answer: every asked quote paid, or exactly one position (0, 1 or 2 in the order asked) not paid,
+    // or the call itself fails
+    let chain = choice(5);
     let own_quote_for_this_address = choice(2) == 0;
     let two_quotes = choice(2) == 1;
     // quote timestamps are free symbolic instants: fresh / too old / in the future is the solver's call
@@ -178,8 +180,18 @@ fn c03_paid_put() {
         peer_quotes.push((crate::data_payments::harness::undecodable_peer_id(), f));
     }
     let proof = ProofOfPayment { peer_quotes };
-    CONTRACT.with(|ct| ct.borrow_mut().answer_ok = contract_ok);
-    note(format!("{kind:?} sigs={sigs_authentic} self_payee={self_is_payee} payees_close={payees_close} contract={contract_ok} own_quote_addr={own_quote_for_this_address} quotes={n_quotes}"));
+    let asked = proof.peer_quotes.len();
+    let contract_ok = match chain {
+        0 => true,
+        4 => false,
+        i => i - 1 >= asked, // an unpaid position beyond what is asked about is no refusal
+    };
+    CONTRACT.with(|ct| {
+        let mut ct = ct.borrow_mut();
+        ct.rpc_fails = chain == 4;
+        ct.unpaid = if (1..=3).contains(&chain) { vec![chain - 1] } else { vec![] };
+    });
+    note(format!("{kind:?} sigs={sigs_authentic} self_payee={self_is_payee} payees_close={payees_close} chain={} own_quote_addr={own_quote_for_this_address} quotes={n_quotes}", ["all paid", "position 0 unpaid", "position 1 unpaid", "position 2 unpaid", "call fails"][chain]));
     let before = store_keys(&c);
     let res = block_on(c.node.validate_and_store_record(paid_record(kind, key.clone(), proof)));
     let stored = c.net.inner.store.borrow().contains_key(&key);
@@ -275,7 +287,14 @@ fn c04_key_binding() {
             c.net.hold(r);
         }
     }
-    CONTRACT.with(|ct| ct.borrow_mut().answer_ok = true);
+    CONTRACT.with(|ct| { let mut ct = ct.borrow_mut(); ct.unpaid = vec![]; ct.rpc_fails = false; });
+    // the same content may already be held under the key it determines (the "already present" short cuts
+    // must not let it in under another key)
+    let held_under_true_key = path != 1 && choice(2) == 1;
+    if held_under_true_key {
+        c.net.hold(unpaid_record(kind, derived.clone()));
+        cover("content_already_held_under_its_own_key");
+    }
     let before = store_snapshot(&c);
     let now = shim::now_secs();
     let res = match path {
@@ -287,12 +306,15 @@ fn c04_key_binding() {
         1 => block_on(c.node.validate_and_store_record(unpaid_record(kind, key.clone()))),
         _ => block_on(c.node.store_replicated_in_record(unpaid_record(kind, key.clone()))),
     };
-    note(format!("{kind:?} path={} foreign_key={use_foreign}", ["client-paid", "unpaid-update", "replication"][path]));
+    note(format!("{kind:?} path={} foreign_key={use_foreign} content_already_held={held_under_true_key}", ["client-paid", "unpaid-update", "replication"][path]));
     let after = store_snapshot(&c);
     if use_foreign {
         cover("foreign_key");
-        check_bool("key:record_under_foreign_key_rejected", res.is_err() || after == before);
+        check_bool("key:record_under_foreign_key_rejected", res.is_err());
         check_bool("key:nothing_changes_for_foreign_key", after == before);
+        // nothing else happens on its behalf either: it is not replicated onwards, no fetch is marked complete, no payment counted
+        let quiet = c.node.replicated.borrow().is_empty() && c.net.inner.fetch_completed.borrow().is_empty() && c.net.inner.payments_notified.get() == 0;
+        check_bool("key:no_side_effect_for_foreign_key", quiet);
     } else {
         cover("derived_key");
         // everything that is stored sits under the key the content determines
@@ -301,7 +323,7 @@ fn c04_key_binding() {
                 check_bool("key:new_record_only_under_derived_key", *k == derived.to_vec());
             }
         }
-        if path == 2 || path == 0 {
+        if (path == 2 || path == 0) && !held_under_true_key {
             check_bool("key:valid_record_under_derived_key_is_stored", res.is_ok());
         }
     }
@@ -399,8 +421,11 @@ fn c07_union() {
         let foreign = the_tx(3, 4, 3); // valid, but another owner's address
         let key = NetworkAddress::from_transaction_address(tx1.address()).to_record_key();
         let rec = |v: Vec<Transaction>| Record { key: key.clone(), value: try_serialize_record(&v, RecordKind::Transaction).unwrap().to_vec(), publisher: None, expires: None };
+        // same owner, other content, carrying the signature bytes of the genuine tx1
+        let mut copied_sig = the_tx(2, 9, 2);
+        copied_sig.signature = tx1.signature.clone();
         let a = rec(vec![tx1.clone()]);
-        let b = rec(vec![tx2.clone(), forged.clone(), foreign.clone()]);
+        let b = rec(vec![tx2.clone(), forged.clone(), foreign.clone(), copied_sig.clone()]);
         let order = choice(2);
         let dup = choice(2) == 1;
         let seq: Vec<Record> = match (order, dup) {
@@ -423,6 +448,7 @@ fn c07_union() {
         cover("transactions");
         check_bool("tx:union_of_valid_deliveries", stored.contains(&tx1) && stored.contains(&tx2) && stored.len() == 2);
         check_bool("tx:forged_entry_never_stored", !stored.contains(&forged));
+        check_bool("tx:entry_with_copied_signature_never_stored", !stored.contains(&copied_sig) && stored.iter().all(|t| t.verify()));
         check_bool("tx:foreign_owner_entry_never_stored", !stored.contains(&foreign));
     } else {
         // register of owner 3: two replicas with one op each (valid), one forged op; delivered in either order
